@@ -55,7 +55,9 @@ RULE = ("exhaustive: every pattern over {a,b,*} up to the tier's length x every 
         "block, several physical blocks), real TokenList.Append histories (1..4 workers) with the active provider of "
         "every field, real TokenList -> generator -> writer -> SelectEntries+Provider+Search. "
         "non-trivial = a query with a wildcard and a text fragment, or a range with a given end (sealed: more than "
-        "one table entry); distinct by input")
+        "one table entry; blocks: more than one group or an empty / 0xFF / >= 255-byte token; provider: more than one "
+        "entry and more than two calls; active list: more than two fields and more than one Append; writer: a chunked "
+        "field or more than one physical block); distinct by input")
 
 
 def harness_args(tier, seed, outdir):
